@@ -4,7 +4,7 @@
     what the eager reference computes for trees of ARBITRARY height. *)
 From Coq Require Import List NArith.
 From MOC.Base Require Import RangeSet.
-From MOC.Model Require Import Qty Ops1D Expr.
+From MOC.Model Require Import Qty Ops1D Expr LazyOps.
 Import ListNotations.
 Open Scope N_scope.
 
@@ -29,5 +29,68 @@ Proof.
   intros x. rewrite Hs, S. tauto.
 Qed.
 
+(** ---------- faithful models of the streaming operators and / or / minus (Model/LazyOps.v:
+    one-range look-ahead per operand, mutation of the heads, consume-while loops, quick tests of
+    ::new trusting peek_last): on valid operands they yield exactly the eager result, whether
+    or not the sources advertise their last range ([hl], [hr]) ---------- *)
+Theorem C04_streaming_and_equals_eager : forall hl hr ub A B, Valid ub A -> Valid ub B ->
+  and_new hl hr A B = inter ub A B.
+Proof. exact and_new_eq_spec. Qed.
+
+Theorem C04_streaming_or_equals_eager : forall hr ub A B, Valid ub A -> Valid ub B ->
+  or_new hr A B = union A B.
+Proof. exact or_new_eq_spec. Qed.
+
+Theorem C04_streaming_minus_equals_eager : forall hl hr ub A B, Valid ub A -> Valid ub B ->
+  minus_new hl hr A B = minus ub A B.
+Proof. exact minus_new_eq_spec. Qed.
+
+(** hints never lie, at EVERY state of the operators (state = look-ahead heads + what remains
+    of the two inputs): the advertised upper bounds 1 + n1 + n2 (and) and 2 + n1 + n2 (or,
+    minus; the repaired code) are never exceeded by what is then yielded ... *)
+Theorem C04_and_size_hint_sound : forall l A' r B',
+  (length (and_l (l :: A') (r :: B')) <= 1 + length A' + length B')%nat.
+Proof. exact and_hint_sound. Qed.
+
+Theorem C04_or_size_hint_sound : forall fuel l A' r B',
+  (length (or_f fuel (l :: A') (r :: B')) <= 2 + length A' + length B')%nat.
+Proof. exact or_hint_sound. Qed.
+
+Theorem C04_minus_size_hint_sound : forall fuel l A' r B',
+  (length (minus_f fuel (l :: A') (r :: B')) <= 2 + length A' + length B')%nat.
+Proof. exact minus_hint_sound. Qed.
+
+(** ... the bound of the code before the repair (D03) was exceeded ... *)
+Theorem C04_or_size_hint_d03_refuted :
+  let A := [(0, 1); (10, 20)] in let B := [(3, 5)] in
+  (length (or_f 10 A B) = 3 /\ 1 + (length A - 1) + (length B - 1) = 2)%nat.
+Proof. exact or_hint_d03_refuted. Qed.
+
+(** ... and the last range advertised by the union bounds everything it yields *)
+Theorem C04_or_peek_last_sound : forall hr A B e, Canon A -> Canon B -> or_last_end A B = Some e ->
+  forall x, cov (or_new hr A B) x -> x < e.
+Proof. exact or_peek_last_sound. Qed.
+
+(** D01: a quick rejection that drops the left operand is wrong; the repaired one keeps it *)
+Theorem C04_minus_quick_rejection_d01_refuted :
+  minus_new_d01 [(10, 20)] [(0, 5)] = [] /\ minus_new true true [(10, 20)] [(0, 5)] = [(10, 20)].
+Proof. exact minus_new_d01_refuted. Qed.
+
+Example C04_nonvacuous_streaming :
+  and_new true true [(0, 5); (8, 12)] [(3, 9); (11, 20)] = [(3, 5); (8, 9); (11, 12)] /\
+  or_new true [(10, 12)] [(0, 5); (7, 9)] = [(0, 5); (7, 9); (10, 12)] /\
+  or_new false [(0, 5); (8, 12)] [(5, 8); (20, 30)] = [(0, 12); (20, 30)] /\
+  minus_new false false [(0, 10); (20, 30)] [(2, 4); (8, 25)] = [(0, 2); (4, 8); (25, 30)].
+Proof. repeat split; vm_compute; reflexivity. Qed.
+
 Print Assumptions C04_eager_reference_correct.
 Print Assumptions C04_pipeline_output_determined.
+Print Assumptions C04_streaming_and_equals_eager.
+Print Assumptions C04_streaming_or_equals_eager.
+Print Assumptions C04_streaming_minus_equals_eager.
+Print Assumptions C04_and_size_hint_sound.
+Print Assumptions C04_or_size_hint_sound.
+Print Assumptions C04_minus_size_hint_sound.
+Print Assumptions C04_or_size_hint_d03_refuted.
+Print Assumptions C04_or_peek_last_sound.
+Print Assumptions C04_minus_quick_rejection_d01_refuted.
